@@ -88,11 +88,11 @@ Pick(S) == IF Sim /\ S # {} THEN {RandomElement(S)} ELSE S
 \* byte strings
 
 HasPfx(p, s) == Len(p) <= Len(s) /\ SubSeq(s, 1, Len(p)) = p
-RECURSIVE LexLess(_, _)
-LexLess(a, b) == IF a = <<>> THEN b # <<>>
-                 ELSE IF b = <<>> THEN FALSE
-                 ELSE IF Head(a) # Head(b) THEN Head(a) < Head(b)
-                 ELSE LexLess(Tail(a), Tail(b))
+LexLess(a, b) ==        \* bytes.Compare(a, b) < 0
+  LET n == IF Len(a) < Len(b) THEN Len(a) ELSE Len(b)
+      d == {i \in 1..n : a[i] # b[i]}
+  IN IF d = {} THEN Len(a) < Len(b)
+     ELSE LET i == CHOOSE i \in d : \A j \in d : i <= j IN a[i] < b[i]
 U32(n) == <<n \div 16777216, (n \div 65536) % 256, (n \div 256) % 256, n % 256>>
 U32Val(s) == ((s[1] * 256 + s[2]) * 256 + s[3]) * 256 + s[4]
 
@@ -302,6 +302,7 @@ TypeOK ==
   /\ rd \in 0..NK /\ bk \subseteq Keys
   /\ (phase = "idle") => (bk = {} /\ todo = <<>> /\ rd = 0)
 
-\* behaviour export (simulation: one behaviour per run; MaxLen bounds it)
-Dump == (Len(hist) >= MaxLen \/ ~ENABLED Next) => PrintT(<<"BEHAVIOUR", ToJson(hist)>>)
+\* behaviour export (simulation: one behaviour per run; MaxLen bounds it; some
+\* action is enabled in every phase, so a behaviour never ends earlier)
+Dump == Len(hist) >= MaxLen => PrintT(<<"BEHAVIOUR", ToJson(hist)>>)
 =============================================================================
